@@ -224,6 +224,12 @@ func loadedFieldOrField(v ssa.Value) (string, ssa.Value, bool) {
 func (c *Ctx) keyFromFiniteTable(v ssa.Value) bool {
 	for i := 0; i < 8; i++ {
 		switch x := v.(type) {
+		case *ssa.Call:
+			// an accessor that returns the looked-up element
+			if callee := staticCallee(&x.Call); callee != nil && accessorOfField(callee) != "" {
+				return true
+			}
+			return false
 		case *ssa.Field:
 			v = x.X
 		case *ssa.Extract:
